@@ -362,6 +362,9 @@ func runC08(e *Env) error {
 		}
 		e.Res.Rule = fmt.Sprintf("inputs: %d golden files of sql/migrate/testdata + their mutations, %d grammar-token strings (quotes, E'..', comments, parens, dollar quotes, BEGIN/END, BEGIN ATOMIC, DELIMITER commands, atlas:delimiter headers, non-ASCII, invalid UTF-8) + byte mutations, all strings of length <= %d over an 11-character punctuation alphabet; each under the option sets of migrate.Stmts, MySQL, PostgreSQL, SQLite (+ 20%% random subsets of the 7 modelled options); non-trivial = implementation returned >= 1 statement or an error; distinct by (options, input)", len(golden), n, maxLen)
 	}
+	if e.Replay == "" && e.Atlas != "" {
+		c08Lint(e)
+	}
 	parallel(e.Workers, len(cases), func(i int) {
 		c := cases[i]
 		sb, _ := hex.DecodeString(c.Src)
